@@ -4340,7 +4340,10 @@ impl Interpreter {
             return Err(JsError::type_error("Symbol.iterator must return an object"));
         };
 
-        // Iterate: call next() until done is true
+        // Iterate: call next() until done is true.
+        // The collected values sit in a Rust Vec while further next() calls allocate:
+        // keep them rooted until the caller has stored them.
+        let values_guard = self.heap.create_guard();
         let mut values = Vec::new();
         let next_key = PropertyKey::String(self.intern("next"));
 
@@ -4392,6 +4395,9 @@ impl Interpreter {
                     .unwrap_or(JsValue::Undefined)
             };
 
+            if let JsValue::Object(o) = &iter_value {
+                values_guard.guard(o.cheap_clone());
+            }
             values.push(iter_value);
         }
 
